@@ -16,9 +16,8 @@ EXPLANATION = ('Each family routine is executed on a symbolic evaluation point a
                'with the textbook definition written independently of any recurrence (explicit finite sums, trigonometric '
                'definitions via x=(z+1/z)/2, functional definitions for Dickson); orthogonality is decided with exact moment '
                'functionals applied to the symbolic polynomials.')
-BOUNDS = {'quick': 'jacobi n<=8 (alpha,beta symbolic); one-parameter families n<=14; sequence forms on 5 dense/sparse order lists up to n=5 (6 lists up to n=8 thorough); zernike n<=6 (values), Gram n<=5; '
-                   'Qbfs/Qcon n<=5, Q2d n<=6 for |m|=1, n<=3 for |m| in {2,3}',
-          'thorough': 'jacobi n<=12; one-parameter families n<=24; zernike n<=10, Gram n<=7; Qbfs/Qcon n<=8; Q2d n<=8 for |m|=1, n<=5 for |m|<=4'}
+BOUNDS = {'quick': 'jacobi n<=8 (alpha,beta symbolic); one-parameter families n<=14; sequence forms on 5 dense/sparse order lists up to n=5 (6 lists up to n=8 thorough); zernike n<=6 (values), Gram n<=5; Qbfs/Qcon n<=5, Q2d n<=6 for |m|=1, n<=3 for |m| in {2,3}; three-term recurrence coefficients n<=3 (alpha, beta symbolic, special branches explored)',
+          'thorough': 'jacobi n<=12; one-parameter families n<=24; zernike n<=10, Gram n<=7; Qbfs/Qcon n<=8; Q2d n<=8 for |m|=1, n<=5 for |m|<=4; recurrence n<=6'}
 OUTSIDE = 'orders above the bound; floating-point stability of the recurrences; Q2d normalisation constant is only required to be order-independent'
 NDERIVED = 40
 MAX_PATHS = 8
